@@ -11,7 +11,7 @@ from pycoin.satoshi.satoshi_string import stream_satoshi_string
 
 from ..encoding.bytes32 import to_bytes_32, from_bytes_32
 from ..encoding.exceptions import EncodingError
-from ..encoding.hash import double_sha256
+from ..encoding.hash import double_sha256, hash160
 from ..encoding.sec import public_pair_to_hash160_sec
 
 
@@ -176,13 +176,16 @@ class MessageSigner(object):
             return bool(key.public_pair() == pair)
         else:
             info = key.info() if hasattr(key, "info") else {}
-            if info.get("type", "p2pkh") not in ("p2pkh", "p2pkh_wit"):
-                # a script-hash (or other) address is not the address of a key,
-                # whatever 20 bytes it carries
-                return False
+            script_type = info.get("type", "p2pkh")
             key_hash160 = key.hash160()
             pair_hash160 = public_pair_to_hash160_sec(pair, compressed=is_compressed)
-            return bool(key_hash160 == pair_hash160)
+            if script_type in ("p2pkh", "p2pkh_wit"):
+                return bool(key_hash160 == pair_hash160)
+            if script_type == "p2sh" and is_compressed:
+                # the address of a BIP49 key: P2SH of the key's P2WPKH script. Any other
+                # script-hash address is not the address of a key, whatever 20 bytes it carries
+                return bool(key_hash160 == hash160(b"\x00\x14" + pair_hash160))
+            return False
 
     def verify_message(self, key_or_address: Any, signature: str, message: str | None = None, msg_hash: int | None = None) -> bool:
         """
